@@ -12,6 +12,7 @@ import (
 	"github.com/vektah/gqlparser/v2/ast"
 
 	"vh/plan"
+	"vh/scalars"
 	"vh/strictjson"
 	"vh/univ"
 )
@@ -439,7 +440,7 @@ func (x *executor) field(obj *ast.Definition, objKey string, fd *ast.FieldDefini
 			}
 		}
 	}
-	valueKey := objKey + "#" + fd.Name
+	valueKey := objKey + "#" + scalars.Canonical(obj.Name, fd.Name)
 	if x.IsResolver(obj.Name, fd.Name) {
 		valueKey = fpath
 		x.res.Resolvers = append(x.res.Resolvers, fpath)
